@@ -38,6 +38,9 @@ type Want struct {
 	OpSize int
 	Ops    []WantOp
 	Fixed  bool // operand-less fixed encoding: compare against FixedEncodings(Op, mode)
+	// Allow66: a redundant operand-size prefix is tolerated (MOV Sreg,m16 / MOV m16,Sreg always move 16
+	// bits; other assemblers emit 66 8E /r for an explicit WORD operand under BITS 32 as well)
+	Allow66 bool
 }
 
 type WantOp struct {
@@ -139,7 +142,17 @@ func compareRaw(out []byte, mode int, w Want) (diffs []Diff, got Inst) {
 			}
 		}
 	}
-	if ex := got.ExtraPrefixes(); len(ex) > 0 {
+	ex := got.ExtraPrefixes()
+	if w.Allow66 {
+		var kept []string
+		for _, p := range ex {
+			if p != "66" {
+				kept = append(kept, p)
+			}
+		}
+		ex = kept
+	}
+	if len(ex) > 0 {
 		add("prefix", "extra:"+strings.Join(ex, ","), fmt.Sprintf("decoded %s from % X", got, out))
 	}
 	return diffs, got
